@@ -36,6 +36,10 @@ var c15Templates = []struct{ src, cls string }{
 	{"ok L.nameR Lindex .list 99R tail", "exec-error"},
 	{"head L.name|rawR tail", "exec-error"},
 	{"a L.nameR b L.type|rawR c Lindex .list 7R", "exec-error"},
+	// each snippet is a template of its own: what one defines is not visible to a later one
+	{"Ldefine \"h\"RhelperLendRa:Ltemplate \"h\"R;", "defines-template"},
+	{"b:Ltemplate \"h\"R;", "uses-undefined-template"},
+	{"Lblock \"h\" .Rdefault-LendRc;", "defines-template"},
 }
 
 func (g *Gen) c15namers() (namer.NameSystems, []string) {
@@ -69,7 +73,7 @@ func c15errS(err error, tmplOp map[error]int) string {
 	if op, ok := tmplOp[err]; ok { // keyed by the error value itself (identity), not its text
 		return tag("tmpl", num(op))
 	}
-	return tag("unknown", atom(err.Error()))
+	return tag("?", atom(err.Error()))
 }
 
 func c15(g *Gen) {
@@ -126,7 +130,9 @@ func c15(g *Gen) {
 					execErr = true
 				}
 				tc := t.cls
-				if parseErr {
+				if strings.HasSuffix(tc, "-template") {
+					// keep the class
+				} else if parseErr {
 					tc = "parse-error"
 				} else if execErr {
 					tc = "exec-error"
@@ -222,6 +228,34 @@ func c15(g *Gen) {
 			return list(it...)
 		}
 		a, aS := mk()
+		if g.Chance(0.15) {
+			a, aS = nil, list() // a nil receiver
+		}
+		unchangedAfterMutation := func(r generator.Args, others ...generator.Args) (ok bool) {
+			// extending the result must not reach the operands; changing an operand afterwards must not reach the result
+			defer func() {
+				if recover() != nil {
+					ok = false
+				}
+			}()
+			var before []string
+			for _, o := range others {
+				before = append(before, render(o))
+			}
+			r["zz-added-to-result"] = "1"
+			for i, o := range others {
+				if render(o) != before[i] {
+					return false
+				}
+			}
+			rs := render(r)
+			for _, o := range others {
+				if o != nil {
+					o["zz-added-to-operand"] = "1"
+				}
+			}
+			return render(r) == rs
+		}
 		if g.Chance(0.5) {
 			k, v := g.Pick(keys), "new"
 			r := a.With(k, v)
@@ -230,7 +264,8 @@ func c15(g *Gen) {
 				cl = append(cl, "args-clash")
 			}
 			g.Emit("C15.args", list(num(c15ver), atom("with"), aS, list(atom(k), atom(v))), render(r), cl...)
-			g.Emit("C15.args-copy!", list(aS, atom(k)), boolS(render(a) == aS), "args-unchanged")
+			same := render(a) == aS
+			g.Emit("C15.args-copy!", list(aS, atom(k)), boolS(same && unchangedAfterMutation(r, a)), "args-unchanged", "args-mutation-independent")
 		} else {
 			b, bS := mk()
 			r := a.WithArgs(b)
@@ -242,7 +277,11 @@ func c15(g *Gen) {
 				}
 			}
 			g.Emit("C15.args", list(num(c15ver), atom("withargs"), aS, bS), render(r), cl...)
-			g.Emit("C15.args-copy!", list(aS, bS), boolS(render(a) == aS && render(b) == bS), "args-unchanged")
+			same := render(a) == aS && render(b) == bS
+			if len(a) == 0 {
+				cl = append(cl, "args-empty-receiver")
+			}
+			g.Emit("C15.args-copy!", list(aS, bS), boolS(same && unchangedAfterMutation(r, a, b)), append(cl, "args-unchanged", "args-mutation-independent")...)
 		}
 	}
 }
